@@ -340,9 +340,54 @@ def gen_vec(r, s, maxlen, maxn, fail):
     return "V %d %d %s" % (s, fail, " ".join(ops))
 
 
+# ------------------------------------------------------------------ Tie A: regenerate gen/GenAlloc.v
+GEN_NEEDED = ["aligned_allocator64_max_size__", "aligned_allocator64_max_size___2", "aligned_allocator64_max_size___3",
+              "aligned_allocator64_max_size___4", "aligned_allocator64_allocate__ul_body", "aligned_allocator64_allocate__ul_2_body",
+              "aligned_allocator64_allocate__ul_3_body", "aligned_allocator64_allocate__ul_4_body", "c14inst_align_ptr_ul__ul_ul",
+              "c14inst_align_ptr_i__ul_i", "memory_isAligned__p_i_expr", "memory_isAligned__p_i_default_alignment"]
+GEN_DEPENDENTS = ["gen/GenAlloc", "ProofsGen", "PropertiesGen"]
+
+
+def regenerate(ctx):
+    """max_size(), the statements of allocate(), isAligned and ALIGN_PTR are re-translated from the working tree
+    (tools/cxx2coq + tools/c14gen); PropertiesGen.v proves them equal to the hand-written model."""
+    gen = os.path.join(ctx.coqdir, "gen")
+    os.makedirs(gen, exist_ok=True)
+    tgt, tmp = os.path.join(gen, "GenAlloc.v"), os.path.join(ctx.build, "GenAlloc.v.new")
+    inc = ctx.include_dir()
+    rc, out = vlib.sh(["python3", os.path.join(ctx.verif, "tools", "c14gen", "c14gen.py"), tmp, "--repo", ctx.repo, "--inc", inc], timeout=300)
+    ctx.log((out.strip().splitlines() or ["c14gen: (no output)"])[-1])
+    if rc != 0 or not os.path.exists(tmp):
+        ctx.broken.append("translator c14gen/cxx2coq failed on tools/cxx2coq/inst/alloc.cpp (rc=%s): %s" % (rc, out[-400:]))
+        new = "(* generation failed *)\n"
+    else:
+        new = open(tmp).read()
+        os.remove(tmp)
+    old = open(tgt).read() if os.path.exists(tgt) else None
+    if new != old:
+        open(tgt, "w").write(new)
+        for f in GEN_DEPENDENTS:          # a failed rebuild must not leave stale .vo files that look discharged
+            for ext in (".vo", ".vos", ".vok", ".glob"):
+                try: os.remove(os.path.join(ctx.coqdir, f + ext))
+                except OSError: pass
+    ctx.cov["generated_model_changed_since_last_run"] = bool(new != old and old is not None)
+    defs = set(re.findall(r"^Definition (\w+)", new, re.M))
+    unsup = re.findall(r"\(\* UNSUPPORTED (\w+)[^:]*: ([^*]*)\*\)", new)
+    ctx.cov["generated_definitions"] = sorted(defs)
+    ctx.cov["translator_unsupported"] = ["%s: %s" % (a, b.strip()) for a, b in unsup]
+    for n in GEN_NEEDED:
+        if n not in defs:
+            ctx.broken.append("generated definition %s is missing (the source left the translator's subset)" % n)
+
+
 # ------------------------------------------------------------------ the check
 def run(ctx):
-    ctx.coq_check(("Properties.v",))
+    regenerate(ctx)
+    thm = ctx.coq_check(("Properties.v", "PropertiesGen.v"))
+    gen_broken = sorted(n for n, ok in thm.items() if n.startswith("gen_") and not ok)
+    ctx.cov["regenerated_obligations_broken"] = gen_broken
+    if gen_broken:
+        ctx.log("regenerated (Tie A) obligations that no longer check: " + ", ".join(gen_broken))
     model = ctx.extract(snippets=["conv_N.ml", "conv_Z.ml"])
     tbbflags = ["-DRKCOMMON_TASKING_TBB"]
     exes = ctx.cxx_many([
@@ -495,12 +540,17 @@ def run(ctx):
                 ctx.broken.append("correspondence C14 model vs %s on case %r: impl=%r model=%r (the implementation's output satisfies the property oracle)"
                                   % (label, c[:300], got[:300], (exp or "")[:300]))
     ctx.cov["mismatches"] = nmis
-    ctx.trusted += ["correspondence harness harness/C14/harness.cpp (3 builds: spy back end / _mm_malloc + ASan+UBSan / tbbmalloc + UBSan; g++ -O1) "
+    ctx.trusted += ["translator tools/cxx2coq/cxx2coq.py + statement walker tools/c14gen/c14gen.py (clang++ -std=c++11 JSON AST of tools/cxx2coq/inst/alloc.cpp -> "
+                    "Gallina over Common.CxxSem.interp; the machine reading MZ wraps every operation to its C type); allocate() is generated as a statement "
+                    "list (C14.GenSem.astmt) whose reading [run] is hand-written; a pointer is read as its address",
+                    "correspondence harness harness/C14/harness.cpp (3 builds: spy back end / _mm_malloc + ASan+UBSan / tbbmalloc + UBSan; g++ -O1) "
                     "+ generators, address abstraction and property oracle in props/C14/check.py",
                     "external, not verified: scalable_aligned_malloc/_mm_malloc/free (contract = Section hypothesis be_contract: returned block aligned, "
                     "inside the address space, disjoint from live blocks; measured on the real back ends by the H cases), libstdc++ std::vector "
                     "(growth policy = Section variables vmax/grow; instance gnu_vmax/gnu_grow mirrored from GCC 12 and compared on every V case)"]
-    ctx.assumptions += ["sizeof(size_t) = 8; pointers are compared as integers", "assert() active (no NDEBUG) in the harness builds",
+    ctx.assumptions += ["Tie A instantiates aligned_allocator<T,64> at T = unsigned char, short, float, double (sizeof 1,2,4,8: the sizes the translator knows); "
+                        "other element sizes are covered by the template being one text and by the differential run (sizes 1..2^31-1)",
+                        "sizeof(size_t) = 8; pointers are compared as integers", "assert() active (no NDEBUG) in the harness builds",
                         "ALIGN_PTR with alignment exactly 2^63 is left out (the macro negates (ssize_t)alignment: signed overflow)",
                         "element values are stored whole at the address of their first byte in the model's memory"]
     if ctx.thorough():
